@@ -65,9 +65,11 @@ Definition dec_arm (x : sx) : arm :=
     (0 (T ...))            -> ((b ...) ...)  row i, column j: sub T_i T_j     (1 true, 0 false, -998 out of fuel)
     (1 (S ...) (T ...))    -> ((b ...) ...)  row i, column j: sub S_i T_j
     (2 T (v ...))          -> (b ...)        den T v
-    (3 T (arm ...))        -> (accepted (arm type ...))   C33: acceptance of `match x: (arms)` for x: T
-    (4 (arm ...) (v ...))  -> (i ...)        C33: index of the first arm that matches v at run time, -1 none
-    (5 (T ...))            -> (b ...)        wf T (the types the laws are stated for) *)
+    (3 T (arm ...) (v ...))-> (acc (d ...) (i ...))   C33: acc = accepted T arms (1, 0, -1: union outside the model),
+                                                        d = den T v, i = rt_select arms v (the arm the model runs for v)
+    (4 (arm ...) ((i v) ...)) -> ((j k) ...)  C33: j = judge_arm arms i v (the arm that ran matches v), k = known_bool_int
+    (5 (T ...))            -> ((w f) ...)    wf T (what the constructors build), frag T (the fragment of sub_sound)
+    (6 (S M T) ...)        -> (k ...)        known_trans S M T: the known class of a failing transitivity instance, 0 none *)
 Definition run (x : sx) : sx :=
   let mode := sx_z (sx_nth x 0) in
   if mode =? 0 then
@@ -83,12 +85,18 @@ Definition run (x : sx) : sx :=
   else if mode =? 3 then
     let t := dec_ty (sx_nth x 1) in
     let arms := map dec_arm (sx_l (sx_nth x 2)) in
-    SL [sx_bool (accepted t arms)]
+    let vs := map dec_val (sx_l (sx_nth x 3)) in
+    SL [match accepted t arms with Some b => sx_bool b | None => SZ (-1) end;
+        SL (map (fun v => sx_bool (den t v)) vs);
+        SL (map (fun v => SZ (rt_select arms v)) vs)]
   else if mode =? 4 then
     let arms := map dec_arm (sx_l (sx_nth x 1)) in
-    SL (map (fun v => SZ (first_match arms (dec_val v))) (sx_l (sx_nth x 2)))
+    SL (map (fun q => let i := sx_z (sx_nth q 0) in let v := dec_val (sx_nth q 1) in
+                      SL [sx_bool (judge_arm arms i v); sx_bool (known_bool_int arms v)]) (sx_l (sx_nth x 2)))
+  else if mode =? 5 then
+    SL (map (fun t => SL [sx_bool (wf (dec_ty t)); sx_bool (frag (dec_ty t))]) (sx_l (sx_nth x 1)))
   else
-    SL (map (fun t => sx_bool (wf (dec_ty t))) (sx_l (sx_nth x 1))).
+    SL (map (fun q => SZ (known_trans (dec_ty (sx_nth q 0)) (dec_ty (sx_nth q 1)) (dec_ty (sx_nth q 2)))) (tl (sx_l x))).
 
 Require Extraction.
 Require Import ExtrOcamlBasic.
